@@ -107,11 +107,11 @@ func treeInvocation(r *rand.Rand, root *drive.Cmd, version bool, mutateP int) (a
 // ---- expectation (DESIGN 3.5) ----
 
 type texp struct {
-	kind      string // RUN, REJECT, HELP, VERSION
-	node      *drive.Cmd
-	path      []*drive.Cmd
-	segs      [][]string
-	unclaimed bool
+	kind        string // RUN, REJECT, HELP, VERSION
+	node        *drive.Cmd
+	path        []*drive.Cmd
+	segs        [][]string
+	unclaimed   bool
 	helpAfterDD bool // the line contains a help token that is data because a -- precedes it
 }
 
@@ -320,6 +320,7 @@ func runC04(c *core.Ctx) {
 	}
 	c.Journal(d)
 	o := drive.Run(&drive.App{Root: root, Policy: flag.ContinueOnError}, argv)
+	c.LibDone()
 	c.Eval()
 	if len(levels) >= 2 || e.kind == "REJECT" {
 		c.Nontrivial(d.Tree, fmt.Sprintf("%q", argv))
@@ -399,6 +400,7 @@ func runC07(c *core.Ctx) {
 	d.Note = "twin (recording types, ContinueOnError)"
 	c.Journal(d)
 	tw := drive.Run(&drive.App{Root: root, Policy: flag.ContinueOnError}, argv)
+	c.LibDone()
 	c.Eval()
 	kind, node := e.kind, e.node
 	why := "spec mismatch"
@@ -444,6 +446,7 @@ func runC07(c *core.Ctx) {
 	d.Note, d.Expect = "", kind
 	c.Journal(d)
 	o := drive.Run(&drive.App{Root: root, Policy: policy, Builtin: typed}, argv)
+	c.LibDone()
 	c.Eval()
 	c.Nontrivial(d.Tree, fmt.Sprintf("%q", argv), d.Policy)
 	if kind == "RUN" {
@@ -572,6 +575,7 @@ func c14One(c *core.Ctx, root *drive.Cmd, version bool, policy flag.ErrorHandlin
 	}
 	c.Journal(d)
 	o := drive.Run(&drive.App{Root: root, Policy: policy, Version: version}, argv)
+	c.LibDone()
 	c.Eval()
 	c.Nontrivial(d.Tree, fmt.Sprintf("%q", argv), d.Policy)
 	c.Inc("expect_" + e.kind + "_" + d.Policy)
